@@ -88,6 +88,15 @@ func Build(spec engine.CartSpec) ([]byte, error) {
 		img[v] = 0x00
 		img[v+1] = 0xd9
 	}
+	if spec.Handler != "" {
+		h := engine.UnHex(spec.Handler)
+		if len(h) > 8 {
+			return nil, fmt.Errorf("handler longer than 8 bytes")
+		}
+		for v := 0x40; v <= 0x60; v += 8 {
+			copy(img[v:], h)
+		}
+	}
 	entry := spec.Entry
 	if entry == 0 {
 		entry = 0x0150
